@@ -53,16 +53,30 @@ pub fn build(mut t: Tape, sweep: Option<(u8, u8)>) -> Built {
         if ucs2 && counted <= 1 {
             s.stray_one = false;
         }
+        // the bare length byte 0x80 (empty UCS-2 string, no NUL unit) is unambiguous where the next
+        // byte cannot be 0x01: before num_players (position 2) and before a player's ping (position 3)
+        let bare = lb == 0x80 && (pos == 2 || pos == 3);
+        if bare {
+            s.trailing_nul = false;
+        }
         match pos {
             0 => st.name = s,
             1 => st.map = s,
-            2 => st.game_type = s,
+            2 => {
+                st.game_type = s;
+                if bare && st.num_players & 0xff == 1 {
+                    st.num_players += 1;
+                }
+            }
             3 => {
                 if st.players.is_empty() {
                     st.players.push(um::UPlayer { id: 1, name: s, ping: 5, score: 1, stats_id: 0 });
                     st.num_players = st.num_players.max(1);
                 } else {
                     st.players[0].name = s;
+                }
+                if bare && st.players[0].ping & 0xff == 1 {
+                    st.players[0].ping += 1;
                 }
             }
             _ => {
@@ -135,7 +149,7 @@ impl Prop for C06 {
             "Latin-1 strings use printable ASCII, 0xa0-0xff, control codes 0x01-0x1a and ESC sequences; 0x7f-0x9f are not generated (Latin-1 and Windows-1252 differ there)".into(),
             "num_players in the server info is at least the number of listed players".into(),
             "the greedy receive loops end on a simulated read timeout".into(),
-            "the UCS-2 length byte 0x80 (empty, no NUL unit) is sent as 0x81 + NUL: a bare 0x80 followed by a 0x01 byte of the next field is inherently ambiguous with the stray-0x01 quirk".into(),
+            "the bare UCS-2 length byte 0x80 (empty, no NUL unit) is only sent where the next byte cannot be 0x01 (game type, first player name); elsewhere it is sent as 0x81 + NUL, because 0x80 followed by a 0x01 byte of the next field is inherently ambiguous with the stray-0x01 quirk".into(),
         ]
     }
 
